@@ -58,8 +58,20 @@ def _roundtrip(job):
         t1 = ft.build_tree(p1, graphtage.BuildOptions(**opt))
         buf = gt._KeepOpen()
         pr = Printer(buf, ansi_color=False, quiet=True)
+        prior = job[5] if len(job) > 5 else None
+        if prior:
+            # the same Printer object was used before, for a nested document of another format
+            prior, pdepth = prior.split(':')
+            pdoc = {"k": "w"}
+            for i in range(int(pdepth) - 1):       # (a document nested pdepth levels deep)
+                pdoc = {"outer": pdoc, "k": ["w"]} if i % 2 else {"outer": [1, pdoc], "k": "w"}
+            pft = graphtage.FILETYPES_BY_TYPENAME[prior]
+            psrc = _dump(prior, pdoc)
+            pft.get_default_formatter().print(pr, pft.build_tree(tf.write(psrc, _SUFFIX[prior], binary=isinstance(psrc, bytes)), graphtage.BuildOptions()))
+            pr.newline() if hasattr(pr, 'newline') else None
+        start = len(buf.getvalue())
         ft.get_default_formatter().print(pr, t1)
-        text = buf.getvalue()
+        text = buf.getvalue()[start:]
         p2 = tf.write(text, suffix)
         try:
             t2 = ft.build_tree(p2, graphtage.BuildOptions(**opt))
@@ -77,8 +89,13 @@ def _roundtrip(job):
     return _tag(fails, job)
 
 
+_SUFFIX = {'json': '.json', 'json5': '.json5', 'yaml': '.yml', 'plist': '.plist'}
+
+
 def _tag(fails, job):
     for f in fails:
+        if len(job) > 5 and job[5]:
+            f['what'] += f" [printed with a Printer object that had printed a {job[5].split(':')[0]} document nested {job[5].split(':')[1]} deep before]"
         primed = job[3] if len(job) > 3 else None
         if primed:
             f['what'] += f" [after a non-colour diff ending in a string {'insertion' if primed == 'ins' else 'removal'} was rendered by the same formatter]"
@@ -87,7 +104,7 @@ def _tag(fails, job):
             f['what'] += f" [trees built with options {opt}]"
         f['input'] = {'fmt': job[0], 'doc': repr(job[1])[:300], 'primed': primed, 'opt': opt}
         f['replay'] = {'kind': 'roundtrip', 'fmt': job[0], 'doc': job[1] if job[0] != 'xml' else None, 'suffix': job[2], 'primed': primed,
-                       'opt': opt}
+                       'opt': opt, 'prior': job[5] if len(job) > 5 else None}
     return fails
 
 
@@ -150,7 +167,7 @@ def witnesses(func_result, ob, repo_root, tier):
 def replay(entry, repo_root):
     r = entry.get('replay') or {}
     if r.get('kind') == 'roundtrip' and r.get('doc') is not None:
-        f = _roundtrip((r['fmt'], r['doc'], r['suffix'], r.get('primed'), r.get('opt')))
+        f = _roundtrip((r['fmt'], r['doc'], r['suffix'], r.get('primed'), r.get('opt'), r.get('prior')))
         return f[0]['what'] if f else None
     return None
 
@@ -177,7 +194,10 @@ def bounded(tier, seed, repo_root):
     primed = [j + (k,) for j in rnd.sample(jobs, min(len(jobs), n)) for k in ('ins', 'rem')]
     # ... and with the trees built under every non-default combination of the build options (the CLI's -k / -l / ... flags)
     optd = [j + (None, o) for j in rnd.sample(jobs, min(len(jobs), n)) for o in gt.OPTION_COMBOS[1:]]
-    jobs = jobs + primed + optd
+    # ... and printed with a Printer object that was used before for a document of another format (indentation width and other
+    # per-printer settings are set by each formatter)
+    shared = [j + (None, None, pf) for j in rnd.sample(jobs, min(len(jobs), n)) for pf in ('json:1', 'json:2', 'json:5', 'yaml:1', 'yaml:3', 'plist:1', 'plist:4') if pf.split(':')[0] != j[0]]
+    jobs = jobs + primed + optd + shared
     fails = [f for fs in pmap(_roundtrip, jobs, repo_root, chunksize=4, job_timeout=60, on_timeout=timeout_failure('C12')) for f in fs]
     # complete check of the per-character escape function
     if tier == 'quick':
